@@ -30,6 +30,25 @@ HAND = [
 ]
 
 
+R = lambda name, lo=B(-1, 0), hi=B(1, 0): {"name": name, "kind": "real", "lo": lo, "hi": hi}
+NN = lambda name, lo=B(0, 0), hi=B(1, 0): {"name": name, "kind": "nnreal", "lo": lo, "hi": hi}
+row = lambda a, cmp, b: {"a": a, "cmp": cmp, "b": b, "name": ""}
+# well-scaled integer systems with redundant or inconsistent equality rows and empty rows, on which the interior
+# point method stops at points that are no solutions (reported by a seeding sub-agent)
+DEGENERATE = [
+    {"id": "h_deg_unb_emptyrow", "sense": "min", "obj": [0, 2, 0], "off": 0, "den": 1, "vars": [NN("v0", hi=B(0, 2)), R("v1"), R("v2")],
+     "rows": [row([0, 0, 0], "le", 0), row([0, 1, 3], "eq", -13)]},
+    {"id": "h_deg_unb_ray", "sense": "min", "obj": [-1, 0, 0, 0], "off": 0, "den": 1,
+     "vars": [R("v0"), R("v1", hi=B(0, 0)), R("v2"), NN("v3", lo=B(0, 3))],
+     "rows": [row([-2, -1, 1, -1], "eq", 0), row([0, -6, 0, 6], "eq", 44)]},
+    {"id": "h_deg_inf_5rows", "sense": "min", "obj": [-3, 0, 2], "off": 0, "den": 1, "vars": [R("v0"), NN("v1"), R("v2")],
+     "rows": [row([-3, -1, -1], "eq", 4), row([-2, 1, -2], "eq", 3), row([-2, 3, 0], "ge", 7), row([5, 0, 3], "eq", -7), row([-8, -1, -4], "eq", 12)]},
+    {"id": "h_deg_inf_parallel", "sense": "max", "obj": [-1, 0, 0], "off": 0, "den": 1, "vars": [R("v0"), NN("v1"), R("v2", lo=B(0, 0))],
+     "rows": [row([0, 0, 0], "eq", 0), row([-1, 3, -1], "eq", 6), row([-2, 6, -2], "eq", 12), row([6, -18, 6], "eq", -36), row([8, -24, 8], "eq", -47)]},
+    {"id": "h_empty_model", "sense": "min", "obj": [], "off": 2, "den": 1, "vars": [], "rows": []},
+]
+
+
 def cycling_cases():
     """The cycling / degenerate tableaux of spec/simplex/library.ndjson (Beale, Kuhn, ...) as linear
     models: the non-basic columns are non-negative variables, each basic (slack) column is a <= row.
@@ -51,7 +70,7 @@ def cycling_cases():
 
 def gen(tier, seed):
     meta = {}
-    cases = copy.deepcopy(HAND) + cycling_cases()
+    cases = copy.deepcopy(HAND) + copy.deepcopy(DEGENERATE) + cycling_cases()
     plan = [("Cont1.cfg", 350, None), ("Mixed1.cfg", 350, None), ("Cont2.cfg", 350, None), ("Mixed2.cfg", 450, None), ("Offset1.cfg", 200, None), ("Offset2.cfg", 300, None),
             ("SimMixed3.cfg", 250 if tier == "quick" else 6000, (3 if tier == "quick" else 40, 9)),
             ("SimCont3.cfg", 150 if tier == "quick" else 3000, (3 if tier == "quick" else 30, 9))]
